@@ -33,21 +33,35 @@ class ProgGen:
         self.m += 1
         return "p%d" % self.m
 
-    def block(self, depth, size, ext=False):
+    def xt_instr(self):
+        rng = self.rng
+        k = rng.randint(0, 1)
+        c = rng.choice(["st", "st", "xw", "xw", "xw", "xp", "xf", "ps"])
+        if c == "xw":
+            return "xw%d.%d" % (k, rng.choice(WAITS))
+        if c == "ps":
+            return "ps"
+        return "%s%d" % (c, k)
+
+    def block(self, depth, size, ext=False, xt=False):
         rng = self.rng
         out = [self.marker()]
         n = rng.randint(0, size)
         for _ in range(n):
             r = rng.random()
+            if xt and rng.random() < 0.3:
+                out.append(self.xt_instr())
+                out.append(self.marker())
+                continue
             if r < 0.30:
                 out.append("w%d" % rng.choice(WAITS))
                 out.append(self.marker())
             elif r < 0.50 and depth > 0:
-                out += ["T("] + self.block(depth - 1, max(1, size // 2), ext) + [")"]
+                out += ["T("] + self.block(depth - 1, max(1, size // 2), ext, xt) + [")"]
                 if rng.random() < 0.7:
                     out.append(self.marker())
             elif r < 0.72 and depth > 0:
-                out += ["W("] + self.block(depth - 1, max(1, size // 2), ext) + [")"]
+                out += ["W("] + self.block(depth - 1, max(1, size // 2), ext, xt) + [")"]
                 out.append(self.marker())
             elif ext and r < 0.95:
                 out.append(self.ext_instr())
@@ -83,7 +97,7 @@ def inject(tokens, pos, tok):
 SENTINEL = ["S p77 w1 p78", "T 1", "X", "T 9", "X"]
 
 
-def history(rng, nthreads, nframes, depth, size, ext=False):
+def history(rng, nthreads, nframes, depth, size, ext=False, xt=False):
     """-> list of ops; programs as token lists inside ('S', tokens)"""
     pg = ProgGen(rng)
     ops = []
@@ -91,7 +105,7 @@ def history(rng, nthreads, nframes, depth, size, ext=False):
     for f in range(nframes + 1):
         for s in starts:
             if s == f:
-                ops.append(("S", pg.block(depth, size, ext)))
+                ops.append(("S", pg.block(depth, size, ext, xt)))
                 if ext and "no-waitpeer" not in FLAGS and rng.random() < 0.3:
                     ops.append(("E", sum(1 for o in ops if o[0] == "S") - 1))     # a second instance of the same script
         if f < nframes:
@@ -181,6 +195,29 @@ def with_markers(tokens):
     return out
 
 
+XCMDS = ["xw0.0", "xw0.2", "xp0", "xf0"]
+
+
+def xthread_histories():
+    """a thread B that stored a reference to itself, in each state (timed wait, waiting for a waitthread callee,
+    paused, running in the middle of a `thread` call, suspended in the middle of a `waitthread` call, itself the
+    executing thread, ended), and every sequence of one or two wait / waitframe / pause commands applied to it"""
+    seqs = [[a] for a in XCMDS] + [[a, b] for a in XCMDS for b in XCMDS]
+    res = []
+    for cmds in seqs:
+        outside = [("st0 w3", 0), ("st0 w3", 1), ("st0 W( w3 )", 0), ("st0 W( w3 )", 1), ("st0 ps", 0), ("st0", 0)]
+        for tgt, early in outside:
+            ops = [("S", with_markers(tgt.split()))]
+            if early:
+                ops += [("T", 1), ("X",)]
+            ops += [("S", with_markers(cmds)), ("T", 1), ("X",), ("T", 2), ("X",)]
+            res.append(ops)
+        for tgt in ("st0 T( %s ) w1", "st0 W( %s )", "st0 W( T( %s ) w1 )", "st0 %s"):
+            ops = [("S", ["p90", "w2", "p91"]), ("S", with_markers((tgt % " ".join(cmds)).split())), ("T", 1), ("X",), ("T", 2), ("X",)]
+            res.append(ops)
+    return res
+
+
 class C13(vlib.HistoryProp):
     cid = "C13"
     variant = "asan"
@@ -200,14 +237,19 @@ class C13(vlib.HistoryProp):
     def assumptions(self):
         return [
             "injected integral millisecond clock (hook H1), constant during an Execute; time scale 1",
-            "Coq model and theorems: threads are abstract programs of println / wait / thread / waitthread / host_reset / host_recompile "
+            "Coq model and theorems: threads are abstract programs of println / wait / thread / waitthread / host_reset / host_recompile / "
+            "level.r<k> = local / pause / level.r<k> wait|waitframe|pause (timing commands applied to another thread through a weak reference) "
             "(each wait-for and notify table holds at most one entry; Stop of a thread that still waits for somebody does not occur); "
             "the interpreter's execution of other statements is C03's subject, waittill/notify C07's",
             "SAMPLED ONLY (real engine under ASan, direct checks of the observed counts, no Coq model): waittill / notify on script-created "
             "objects and on threads (parent thread, a peer instance's thread), spawn / remove of host entities, CreateListener, commanddelay "
             "(queued events), arrays, loops, pause, several instances of one script, destruction of the context at every frame boundary",
             "exactly-once destruction is a theorem about the model (ids are never reused there; a second destruction or the use of a "
-            "destroyed object sets the flag ub, proved unreachable); on the real engine it is observed as: pool counts of "
+            "destroyed object sets the flag ub; proved: the destructors - delete thread with its cascade, destroy instance, Reset, "
+            "recompile - never raise it on a state of the invariant and conserve pool + log; every error-free step keeps the invariant); "
+            "NOT proved, sampled only: that the step loop as a whole never raises an error flag (no harness/model line ever carried "
+            "ERR=ub or ERR=hang) and the refinement run = spec_run (model lines `m` and specification lines `s` are compared on every "
+            "case); on the real engine it is observed as: pool counts of "
             "ScriptThread/ScriptVM/ScriptClass equal to the model's after every host op, no ASan report (the pools recycle memory "
             "without poisoning it: a double destruction is caught when it reaches malloc'ed memory - stacks, variable tables, the "
             "pool block itself), the instance chain has as many links as the pool, a sentinel script runs as on a new engine",
@@ -248,19 +290,30 @@ class C13(vlib.HistoryProp):
                 # the bystander's own injection points are not interesting: drop injections into program 0
                 vs = [v for v in vs if not v[1][0].startswith("S p90 R") and " R " not in v[1][0] and " C " not in v[1][0]
                       and not v[1][0].endswith(" R") and not v[1][0].endswith(" C") and not v[1][0].startswith("S R") and not v[1][0].startswith("S C")]
-                if len(vs) > 14:
-                    vs = [vs[0]] + rng.sample(vs[1:], 13)
+                if len(vs) > 31:
+                    vs = [vs[0]] + rng.sample(vs[1:], 30)
             for tag, lines in vs:
                 add(lines, "exhaustive-" + tag)
+        # (1b) cross-thread timing commands: every state of the target x every sequence of <= 2 commands x injections
+        for ops in xthread_histories():
+            vs = variants(ops, rng, limit=(10 if quick else None), recompile=True, destroy=True)
+            for tag, lines in vs:
+                add(lines, "xthread-" + tag)
+        plan = [(3, 4, 2, 5, 200, 16)] if quick else [(3, 4, 2, 5, 1500, 40), (4, 8, 3, 7, 400, 40)]
+        for nth, nfr, depth, size, cnt, lim in plan:
+            for _ in range(cnt):
+                ops = history(rng, rng.randint(1, nth), rng.randint(2, nfr), depth, size, False, True)
+                for tag, lines in variants(ops, rng, limit=lim):
+                    add(lines, "xrandom-" + tag)
         # (2) random histories of the model alphabet x every injection point (quick: a sample of them)
-        plan = [(2, 3, 2, 4, 60, 16), (3, 5, 3, 6, 40, 16)] if quick else [(2, 3, 2, 4, 500, None), (3, 5, 3, 6, 400, None), (4, 8, 3, 7, 150, 60)]
+        plan = [(2, 3, 2, 4, 250, 24), (3, 5, 3, 6, 150, 24)] if quick else [(2, 3, 2, 4, 500, None), (3, 5, 3, 6, 400, None), (4, 8, 3, 7, 150, 60)]
         for nth, nfr, depth, size, cnt, lim in plan:
             for _ in range(cnt):
                 ops = history(rng, rng.randint(1, nth), rng.randint(2, nfr), depth, size, False)
                 for tag, lines in variants(ops, rng, limit=lim):
                     add(lines, "random-" + tag)
         # (3) the full quantifier, sampled on the real engine only
-        plan = [(3, 4, 2, 5, 70, 12)] if quick else [(3, 4, 2, 5, 700, 40), (4, 8, 3, 7, 250, 40)]
+        plan = [(3, 4, 2, 5, 250, 16), (4, 8, 3, 7, 60, 16)] if quick else [(3, 4, 2, 5, 700, 40), (4, 8, 3, 7, 250, 40)]
         for nth, nfr, depth, size, cnt, lim in plan:
             for _ in range(cnt):
                 ops = history(rng, rng.randint(1, nth), rng.randint(2, nfr), depth, size, True)
@@ -276,7 +329,7 @@ class C13(vlib.HistoryProp):
         s = [l[2:] for l in lines if l.startswith("s ")]
         return m, [], m == s
 
-    LINE = re.compile(r"^(\S+) (\S+) idle=(\d) cls=(\d+) thr=(\d+) vm=(\d+) scr=(\d+) tmr=(\d) ev=(\d+) trk=(\d+) ent=(\d+) tmp=(\d+)$")
+    LINE = re.compile(r"^(\S+) (\S+) idle=(\d) cls=(\d+) thr=(\d+) vm=(\d+) scr=(\d+) tmr=(\d+) ev=(\d+) trk=(\d+) ent=(\d+) tmp=(\d+)$")
 
     def canon_impl(self, lines):
         cmp_, direct = [], []
@@ -313,6 +366,10 @@ class C13(vlib.HistoryProp):
                 direct.append("VM count differs from thread count between host ops: " + body)
             if tmr and not thr:
                 direct.append("pending timer without a thread: " + body)
+            if tmr > thr:
+                direct.append("more timer elements than threads (a thread is in the timer twice): " + body)
+            if tmr and idle:
+                direct.append("idle with a pending timer: " + body)
             if op == "R":
                 nres += 1
                 if ncls or thr or vm or scr or tmr or tmp or ("strictobjects" in FLAGS and (trk or ent)):
@@ -342,7 +399,7 @@ def check(res, tier, seed):
     res.cov["rule"] += ("C13: corpus (the two double-destruction defects as regression inputs); EXHAUSTIVE: every program with <= 2 instructions per block "
                         "over {wait 0, wait 1, println, thread block, waitthread block} (nesting 1; thorough: 2) next to a bystander script, with a "
                         "Reset / recompile of each script / context destruction injected between any two host ops and a host_reset / "
-                        "host_recompile at every instruction position (quick: a seeded sample of 13 injections per program); RANDOM: seeded "
+                        "host_recompile at every instruction position (quick: a seeded sample of 30 injections per program); RANDOM: seeded "
                         "histories of 1-4 scripts (nesting <= 3) x the same injections; each followed by a sentinel script with a wait; "
                         "EXT (engine only): the same with waittill/notify, spawn/remove, listeners, queued events, arrays, loops, pause, "
                         "second instances. non-trivial = a host op removed >= 2 threads at once or a host call inside a script reset/recompiled. ")
